@@ -7,6 +7,11 @@
    in the comment of the field); [impl_flags] switches all of them on and is what the library is expected to answer
    case by case (checked by the correspondence run).  A case where the two evaluators differ is a deviation of the
    library from XPath 1.0; the flags that are needed to explain the library's answer name the deviation.
+   The switches of the deviations that were repaired in /repo (commits 61e2388 .. f6e5fb8: sort restart crash, skipped
+   operands, '//' duplicates, unsorted child steps, floor/ceiling/round, numeric predicates, node-set vs boolean,
+   '//' before node types, following and preceding axes, key lookups with non-string or context-dependent values,
+   attribute::node(), normalize-space, stale hash entries) have been removed: both evaluators follow the
+   recommendation there.
 
    Node-sets are lists of items in document order without duplicates (proved in XPathSemP.v for every expression).
    The axes are defined as relations between items, decided from the pre-order indices of XPathTree: a step selects
@@ -70,51 +75,27 @@ Record flags : Type := {
   f_prec : Z;             (* mantissa bits: 53 IEEE double; 64 long double (struct lyxp_set val.num) *)
   f_n2s : bool;           (* lyxp_set_cast(): number -> string with '%lld' / '%03.1Lf' *)
   f_s2n : bool;           (* cast_string_to_number(): strtold() *)
-  f_floor : bool;         (* xpath_floor/xpath_ceiling/xpath_round: (long long) casts *)
   f_bytes : bool;         (* xpath_string_length/xpath_substring/xpath_translate count bytes *)
   f_strval : bool;        (* cast_string_recursive(): string value of inner nodes with line feeds and indentation *)
-  f_predtrunc : bool;     (* eval_predicate(): (long long)number == position *)
   f_predglobal : bool;    (* eval_predicate(): positions count over the whole step result, not per context node *)
-  f_following : bool;     (* moveto_axis_node_next_first(): following starts at the next sibling only *)
-  f_preceding : bool;     (* ...: preceding needs a previous sibling and then includes the ancestors *)
   f_rootstar : bool;      (* moveto_node_check(): the root matches '*' *)
   f_text : bool;          (* text nodes exist only as the result of child::text() on term nodes *)
-  f_dslash : bool;        (* eval_node_type_with_predicate(): '//' before node() / text() is ignored *)
-  f_assert : bool;        (* moveto_node(): assert(!set_sort(set)) on child/self steps from nested context nodes *)
-  f_crash : bool;         (* get_node_pos(): restart of the search with a stale iterator (SIGSEGV) *)
-  f_cmpbool : bool;       (* moveto_op_comp(): node-set vs boolean compared item by item *)
   f_canon : bool;         (* set_comp_canonize(): string operand canonized by the type of the compared node *)
-  f_fast : bool;          (* eval_name_test_try_compile_predicates(): key predicates answered by a string lookup *)
   f_nsaxis : bool;        (* the namespace axis is a syntax error *)
-  f_attrnode : bool;      (* moveto_node(): assert(0) for attribute::node() *)
-  f_nonset : bool;        (* a step after a non-node-set: assert in moveto_resolve_model() for a name test,
-                             empty node-set instead of an error for node() (xpath_pi_node) *)
-  f_alldup : bool;        (* moveto_node_alldesc_child(): a node that is also a start node is inserted twice *)
-  f_skip : bool;          (* xpath_pi_node() ignores LYXP_SKIP_EXPR: a skipped operand of or/and containing
-                             '//' + a non-child axis + a name test empties the accumulated result *)
-  f_fastpos : bool;       (* the key lookup is also used when the value expression calls position() or last(): they are
-                             evaluated once, in a context of size 1 *)
-  f_normsp : bool;        (* xpath_normalize_space() keeps a single tab / line break between words *)
-  f_texthash : bool       (* xpath_pi_text() retypes set items without updating the set's hash table (present from
-                             4 items on); the consistency assert of set_sort() fails at the next predicate *)
+  f_nonset : bool         (* xpath_pi_node(): node() after something that is not a node-set gives an empty node-set
+                             instead of the type error *)
 }.
 
 Definition spec_flags : flags :=
-  {| f_prec := 53; f_n2s := false; f_s2n := false; f_floor := false; f_bytes := false; f_strval := false;
-     f_predtrunc := false; f_predglobal := false; f_following := false; f_preceding := false; f_rootstar := false;
-     f_text := false; f_dslash := false; f_assert := false; f_crash := false; f_cmpbool := false; f_canon := false;
-     f_fast := false; f_nsaxis := false; f_attrnode := false; f_nonset := false; f_alldup := false; f_skip := false; f_fastpos := false; f_normsp := false; f_texthash := false |}.
+  {| f_prec := 53; f_n2s := false; f_s2n := false; f_bytes := false; f_strval := false; f_predglobal := false;
+     f_rootstar := false; f_text := false; f_canon := false; f_nsaxis := false; f_nonset := false |}.
 
 Definition impl_flags : flags :=
-  {| f_prec := 64; f_n2s := true; f_s2n := true; f_floor := true; f_bytes := true; f_strval := true;
-     f_predtrunc := true; f_predglobal := true; f_following := true; f_preceding := true; f_rootstar := true;
-     f_text := true; f_dslash := true; f_assert := true; f_crash := true; f_cmpbool := true; f_canon := true;
-     f_fast := true; f_nsaxis := true; f_attrnode := true; f_nonset := true; f_alldup := true; f_skip := true; f_fastpos := true; f_normsp := true; f_texthash := true |}.
+  {| f_prec := 64; f_n2s := true; f_s2n := true; f_bytes := true; f_strval := true; f_predglobal := true;
+     f_rootstar := true; f_text := true; f_canon := true; f_nsaxis := true; f_nonset := true |}.
 
 (* error classes *)
 Definition E_TYPE : N := 7.        (* LY_EVALID: wrong operand / argument type, unknown function, wrong arity *)
-Definition E_ASSERT : N := 90.     (* as coded only: an assert() of xpath.c fails *)
-Definition E_CRASH : N := 91.      (* as coded only: invalid memory access *)
 
 (* ------------------------------------------------------------------------------------------------ *)
 (* axes as relations between a context item c and a candidate item m                                *)
@@ -174,18 +155,12 @@ Definition axis_spec (ax : axis) (c m : item) : bool :=
   | AxAttribute | AxNamespace => false
   end.
 
+(* as coded (f_text) text items are never selected by an axis, and nothing follows or precedes a text item *)
 Definition axis_rel (fl : flags) (ax : axis) (c m : item) : bool :=
   if f_text fl && is_itext m then false
   else
     match ax with
-    | AxFollowing =>
-        if f_following fl then
-          match c, m with IElem x, IElem y => x_next x && (x_last x <? x_id y) | _, _ => false end
-        else if f_text fl && is_itext c then false else axis_spec ax c m
-    | AxPreceding =>
-        if f_preceding fl then
-          match c, m with IElem x, IElem y => x_prev x && (x_id y <? x_id x) | _, _ => false end
-        else if f_text fl && is_itext c then false else axis_spec ax c m
+    | AxFollowing | AxPreceding => if f_text fl && is_itext c then false else axis_spec ax c m
     | _ => axis_spec ax c m
     end.
 
@@ -219,13 +194,6 @@ Definition reverse_axis (ax : axis) : bool :=
   | _ => false
   end.
 
-(* axes after which moveto_node() sorts instead of asserting sortedness (set->non_child_axis) *)
-Definition nonchild_axis (ax : axis) : bool :=
-  match ax with
-  | AxChild | AxSelf | AxAttribute | AxNamespace => false
-  | _ => true
-  end.
-
 Definition is_ns_axis (ax : axis) : bool := match ax with AxNamespace => true | _ => false end.
 Definition is_attr_axis (ax : axis) : bool := match ax with AxAttribute => true | _ => false end.
 Definition is_child_axis (ax : axis) : bool := match ax with AxChild => true | _ => false end.
@@ -257,44 +225,6 @@ Fixpoint merge_items (l1 : list item) : list item -> list item :=
         | Gt => b :: inner r2
         end
     end.
-
-(* merge of two weakly sorted lists that keeps equal items of both (a sorted multiset union) *)
-Fixpoint merge_keep (l1 : list item) : list item -> list item :=
-  fix inner (l2 : list item) : list item :=
-    match l1, l2 with
-    | [], _ => l2
-    | _, [] => l1
-    | a :: r1, b :: r2 =>
-        if item_key a <=? item_key b then a :: merge_keep r1 l2 else b :: inner r2
-    end.
-
-Definition mem_item (it : item) (l : list item) : bool := existsb (item_eqb it) l.
-
-(* keep the first occurrence of every item *)
-Fixpoint dedupe (l : list item) (seen : list item) : list item :=
-  match l with
-  | [] => []
-  | a :: r => if mem_item a seen then dedupe r seen else a :: dedupe r (a :: seen)
-  end.
-
-(* some element after a non-root item has a smaller key (roots have position 0 and are skipped by set_assign_pos) *)
-Fixpoint has_descent (l : list item) (prev : option N) : bool :=
-  match l with
-  | [] => false
-  | IRoot :: r => has_descent r prev
-  | a :: r =>
-      match prev with
-      | Some k => if item_key a <? k then true else has_descent r (Some (item_key a))
-      | None => has_descent r (Some (item_key a))
-      end
-  end.
-
-(* the last top-level node has no children *)
-Fixpoint last_top_childless (t : list xnode) (cur : bool) : bool :=
-  match t with
-  | [] => cur
-  | n :: r => last_top_childless r (match x_parent n with None => x_last n =? x_id n | Some _ => cur end)
-  end.
 
 (* ------------------------------------------------------------------------------------------------ *)
 (* string value (XPath 1.0 section 5) and conversions (section 4)                                   *)
@@ -433,28 +363,8 @@ Definition cmp_values (fl : flags) (t : list xnode) (op : cmpop) (a b : value) :
   | VNum x, VSet l => existsb (fun it => cmp_num op x (s2n fl (string_value fl t it))) l
   | VSet l, VStr s => cmp_set_str fl t op l s
   | VStr s, VSet l => cmp_set_str fl t (flip_op op) l s
-  | VSet l, VBool bb =>
-      if f_cmpbool fl then
-        (* as coded: item by item; a relational operator casts the boolean operand to a number for good, so only
-           the first node is compared as boolean(node) and the following ones as number(node) *)
-        if is_relational op then
-          match l with
-          | [] => false
-          | _ :: r => cmp_num op (bool_to_num true) (bool_to_num bb) ||
-                      existsb (fun it => cmp_num op (s2n fl (string_value fl t it)) (bool_to_num bb)) r
-          end
-        else existsb (fun _ => cmp_bool op true bb) l
-      else cmp_atomic fl t op (VBool (to_bool a)) (VBool bb)
-  | VBool bb, VSet l =>
-      if f_cmpbool fl then
-        if is_relational op then
-          match l with
-          | [] => false
-          | _ :: r => cmp_num op (bool_to_num bb) (bool_to_num true) ||
-                      existsb (fun it => cmp_num op (bool_to_num bb) (s2n fl (string_value fl t it))) r
-          end
-        else existsb (fun _ => cmp_bool op bb true) l
-      else cmp_atomic fl t op (VBool bb) (VBool (to_bool b))
+  | VSet l, VBool bb => cmp_atomic fl t op (VBool (to_bool a)) (VBool bb)
+  | VBool bb, VSet l => cmp_atomic fl t op (VBool bb) (VBool (to_bool b))
   | _, _ => cmp_atomic fl t op a b
   end.
 
@@ -474,16 +384,13 @@ Record ectx : Type := {
   c_item : item;          (* context node *)
   c_pos : N;              (* context position *)
   c_size : N;             (* context size *)
-  c_cur : item;           (* current() : the initial context node *)
-  c_nca : bool            (* as coded only: set->non_child_axis of the context set *)
+  c_cur : item            (* current() : the initial context node *)
 }.
 
 (* predicate truth: a number is compared with the context position *)
-Definition pred_true (fl : flags) (v : value) (pos : N) : bool :=
+Definition pred_true (v : value) (pos : N) : bool :=
   match v with
-  | VNum x =>
-      if f_predtrunc fl then (ll_cast x =? Z.of_N pos)%Z
-      else x_eq x (x_of_Z (Z.of_N pos))
+  | VNum x => x_eq x (x_of_Z (Z.of_N pos))
   | _ => to_bool v
   end.
 
@@ -499,68 +406,6 @@ Fixpoint fold_res {A B} (f : A -> B -> res A) (l : list B) (a : A) : res A :=
   | [] => Ok a
   | b :: r => bind (f a b) (fun a' => fold_res f r a')
   end.
-
-(* as coded: set->non_child_axis after evaluating e from a context set with flag n *)
-Fixpoint nca_of (e : expr) (n : bool) : bool :=
-  match e with
-  | ERoot => false
-  | ECtx => n
-  | EStep base ds ax nt _ =>
-      nca_of base n || nonchild_axis ax ||
-      (ds && negb (match ax, nt with AxChild, TName _ _ | AxChild, TStar _ => true | _, _ => false end))
-  | EFilter e' _ => nca_of e' n
-  | EUnion a _ => nca_of a n
-  | _ => n
-  end.
-
-(* a value expression whose result cannot depend on the context node (the fast path evaluates it once) *)
-Fixpoint closed_expr (pos : bool) (e : expr) : bool :=
-  match e with
-  | ELit _ | ENum _ => true
-  | EFun0 f => match f with FTrue | FFalse => true | FLast | FPosition => pos | _ => false end
-  | EFun1 f a => match f with
-                 | FString | FNumber | FBoolean | FNot | FFloor | FCeiling | FRound | FStrLen | FNormSpace => closed_expr pos a
-                 | _ => false
-                 end
-  | EFun2 f a b => match f with
-                   | FConcat | FStartsWith | FContains | FSubBefore | FSubAfter | FSubstring => closed_expr pos a && closed_expr pos b
-                   | _ => false
-                   end
-  | EFun3 f a b c => match f with
-                     | FSubstring | FTranslate => closed_expr pos a && closed_expr pos b && closed_expr pos c
-                     | _ => false
-                     end
-  | EArith _ a b | ECmp _ a b => closed_expr pos a && closed_expr pos b
-  | ENeg a => closed_expr pos a
-  | _ => false
-  end.
-
-(* the leading predicates [k1=v1][k2=v2].. for the keys in schema order: value expressions and the rest *)
-Fixpoint key_preds (pos : bool) (mod_ : bytes) (keys : list bytes) (ps : preds) : option (list expr * preds) :=
-  match keys with
-  | [] => Some ([], ps)
-  | k :: keys' =>
-      match ps with
-      | PCons (ECmp CEq (EStep ECtx false AxChild (TName pfx nm) PNil) rhs) r =>
-          if beq_bytes nm k && match pfx with Some p => beq_bytes p mod_ | None => true end && closed_expr pos rhs then
-            match key_preds pos mod_ keys' r with
-            | Some (vs, rest) => Some (rhs :: vs, rest)
-            | None => None
-            end
-          else None
-      | _ => None
-      end
-  end.
-
-(* the child of list instance n named k *)
-Definition key_child (t : list xnode) (n : xnode) (k : bytes) : option xnode :=
-  find (fun d => match x_parent d with Some p => (p =? x_id n) && beq_bytes (ni_name (x_info d)) k | None => false end) t.
-
-Definition inst_matches (t : list xnode) (n : xnode) (keys : list bytes) (vals : list bytes) : bool :=
-  forallb (fun kv => match key_child t n (fst kv) with
-                     | Some d => beq_bytes (ni_val (x_info d)) (snd kv)
-                     | None => false
-                     end) (combine keys vals).
 
 (* does the expression use the namespace axis anywhere (as coded: rejected when the expression is parsed) *)
 Fixpoint uses_ns (e : expr) : bool :=
@@ -578,47 +423,12 @@ with uses_ns_p (ps : preds) : bool :=
   | PCons p r => uses_ns p || uses_ns_p r
   end.
 
-(* as coded: a step '//' + axis other than child/attribute + name test anywhere in e: parsing it in skip mode
-   calls xpath_pi_node(), which frees the set it is given *)
-Fixpoint skip_clobbers (e : expr) : bool :=
-  match e with
-  | ERoot | ECtx | ELit _ | ENum _ | EFun0 _ => false
-  | EStep base ds ax nt ps =>
-      skip_clobbers base || skip_clobbers_p ps ||
-      (ds && match ax with AxChild | AxAttribute | AxNamespace => false | _ => true end &&
-       match nt with TName _ _ | TStar _ => true | _ => false end)
-  | EFilter e' ps => skip_clobbers e' || skip_clobbers_p ps
-  | EOr a b | EAnd a b | ECmp _ a b | EArith _ a b | EUnion a b | EFun2 _ a b => skip_clobbers a || skip_clobbers b
-  | ENeg a | EFun1 _ a => skip_clobbers a
-  | EFun3 _ a b c => skip_clobbers a || skip_clobbers b || skip_clobbers c
-  end
-with skip_clobbers_p (ps : preds) : bool :=
-  match ps with
-  | PNil => false
-  | PCons p r => skip_clobbers p || skip_clobbers_p r
-  end.
-
-(* non-decreasing keys (set_sort() finds nothing to swap) *)
-Fixpoint sorted_weak_from (k : N) (l : list item) : bool :=
-  match l with
-  | [] => true
-  | it :: r => (k <=? item_key it) && sorted_weak_from (item_key it) r
-  end.
-
 Section Eval.
   Variable fl : flags.
   Variable t : list xnode.
 
   Definition num_of (v : value) : xnum := to_num fl t v.
   Definition str_of (v : value) : bytes := to_str fl t v.
-
-  Definition floor_f (x : xnum) (cx : ectx) : value :=
-    if f_floor fl then match impl_floor x with Some r => VNum r | None => VSet [c_item cx] end
-    else VNum (spec_floor x).
-  Definition ceiling_f (x : xnum) : xnum := if f_floor fl then impl_ceiling x else spec_ceiling x.
-  Definition round_f (x : xnum) : xnum := if f_floor fl then impl_round (f_prec fl) x else spec_round (f_prec fl) x.
-  Definition substring_f (s : bytes) (a : xnum) (b : option xnum) : bytes :=
-    if f_bytes fl then impl_substring (f_prec fl) s a b else spec_substring (f_prec fl) s a b.
 
   (* first node of a node-set argument (or of the context) for local-name() / name() *)
   Definition name_of (local : bool) (l : list item) : bytes :=
@@ -627,7 +437,7 @@ Section Eval.
     | _ => []
     end.
 
-  Definition fun1 (f : fn) (cx : ectx) (v : value) : res value :=
+  Definition fun1 (f : fn) (v : value) : res value :=
     match f with
     | FCount => match v with VSet l => Ok (VNum (x_of_Z (Z.of_nat (length l)))) | _ => Err E_TYPE end
     | FLocalName => match v with VSet l => Ok (VStr (name_of true l)) | _ => Err E_TYPE end
@@ -635,7 +445,7 @@ Section Eval.
     | FString => Ok (VStr (str_of v))
     | FStrLen => Ok (VNum (x_of_Z (Z.of_nat (if f_bytes fl then impl_string_length (str_of v)
                                                else spec_string_length (str_of v)))))
-    | FNormSpace => Ok (VStr (if f_normsp fl then impl_normalize_space (str_of v) else normalize_space (str_of v)))
+    | FNormSpace => Ok (VStr (normalize_space (str_of v)))
     | FBoolean => Ok (VBool (to_bool v))
     | FNot => Ok (VBool (negb (to_bool v)))
     | FNumber => Ok (VNum (num_of v))
@@ -643,9 +453,9 @@ Section Eval.
               | VSet l => Ok (VNum (fold_left (fun acc it => x_add (f_prec fl) acc (s2n fl (string_value fl t it))) l x_zero))
               | _ => Err E_TYPE
               end
-    | FFloor => Ok (floor_f (num_of v) cx)
-    | FCeiling => Ok (VNum (ceiling_f (num_of v)))
-    | FRound => Ok (VNum (round_f (num_of v)))
+    | FFloor => Ok (VNum (spec_floor (num_of v)))
+    | FCeiling => Ok (VNum (spec_ceiling (num_of v)))
+    | FRound => Ok (VNum (spec_round (f_prec fl) (num_of v)))
     | _ => Err E_TYPE
     end.
 
@@ -656,148 +466,48 @@ Section Eval.
     | FContains => Ok (VBool (str_contains (str_of a) (str_of b)))
     | FSubBefore => Ok (VStr (match split_at_sub (str_of a) (str_of b) with Some (x, _) => x | None => [] end))
     | FSubAfter => Ok (VStr (match split_at_sub (str_of a) (str_of b) with Some (_, y) => y | None => [] end))
-    | FSubstring => Ok (VStr (substring_f (str_of a) (num_of b) None))
+    | FSubstring => Ok (VStr (substring (f_prec fl) (f_bytes fl) (str_of a) (num_of b) None))
     | _ => Err E_TYPE
     end.
 
   Definition fun3 (f : fn) (a b c : value) : res value :=
     match f with
-    | FSubstring => Ok (VStr (substring_f (str_of a) (num_of b) (Some (num_of c))))
+    | FSubstring => Ok (VStr (substring (f_prec fl) (f_bytes fl) (str_of a) (num_of b) (Some (num_of c))))
     | FTranslate => Ok (VStr (translate (f_bytes fl) (str_of a) (str_of b) (str_of c)))
     | _ => Err E_TYPE
     end.
-
-  (* as coded checks of one step over the context set S (moveto_node): assert on child/self steps whose
-     concatenated result is not in document order; crash in get_node_pos() when a set has to be sorted and the
-     last top-level node has no children *)
-  Definition step_checks (nca : bool) (ax : axis) (nt : ntest) (S : list item) : res unit :=
-    let raw := flat_map (fun c => if reverse_axis ax then rev (cands fl t ax nt c) else cands fl t ax nt c) S in
-    if nonchild_axis ax || nca then
-      if f_crash fl && has_descent (dedupe raw []) None && last_top_childless t false then Err E_CRASH else Ok tt
-    else
-      (* set_sort() finds nothing to swap between equal items *)
-      if f_assert fl && negb (match raw with [] => true | it :: r => sorted_weak_from (item_key it) r end)
-      then Err E_ASSERT else Ok tt.
 
   (* the union over the context items of S of the selected items *)
   Definition step_union (ax : axis) (nt : ntest) (S : list item) : list item :=
     filter (fun m => existsb (fun c => axis_rel fl ax c m && node_test fl nt c m) S) (all_items t).
 
-  (* as coded: moveto_node_alldesc_child() - from every child c1 of the context nodes a DFS collects the matching
-     nodes; below a matching node that is itself one of the start nodes the DFS does not descend (it is 'processed
-     later'), but that node has been inserted already and is inserted again as a start node *)
-  Definition alldesc_coded (nt : ntest) (C1 : list item) : list item :=
-    flat_map (fun st =>
-      match st with
-      | IElem sn =>
-          filter (fun m =>
-            match m with
-            | IElem y =>
-                ((x_id sn =? x_id y) || in_subtree sn y) && node_test fl nt st m &&
-                negb (existsb (fun z => match z with
-                                        | IElem zn => negb (x_id zn =? x_id sn) && in_subtree sn zn &&
-                                                      node_test fl nt st z && in_subtree zn y
-                                        | _ => false
-                                        end) C1)
-            | _ => false
-            end) (all_items t)
-      | _ => []
-      end) C1.
-
-  (* as coded: does the step qualify for the key lookup? first selected instance and its key names *)
-  Definition fast_pre (ax : axis) (ds : bool) (nt : ntest) (ps : preds) (all : list item) : option (xnode * list bytes) :=
-    if negb (f_fast fl) || ds then None
-    else
-      match ax, nt, all with
-      | AxChild, TName _ _, IElem n0 :: _ =>
-          match ni_kind (x_info n0), ni_keys (x_info n0) with
-          | KList, k0 :: krest =>
-              match key_preds (f_fastpos fl) (ni_mod (x_info n0)) (k0 :: krest) ps with
-              | Some _ => Some (n0, k0 :: krest)
-              | None => None
-              end
-          | _, _ => None
-          end
-      | _, _, _ => None
-      end.
-
   (* one step 'base/axis::test[preds]' (or 'base//...') from the context set S0.
-     [ap nca rv skip l] applies the predicates of the step to the candidate list l (eval's apply_preds);
-     [fastp] / [fastv] are the as-coded key lookup of the step (fast_pre, fast_vals). *)
-  Definition step_body (nca0 : bool) (S0 : list item) (ds : bool) (ax : axis) (nt : ntest) (has_preds : bool)
-             (ap : bool -> bool -> nat -> list item -> res (list item))
-             (fastp : list item -> option (xnode * list bytes))
-             (fastv : xnode -> list bytes -> option (list bytes)) : res value :=
+     [ap rv l] applies the predicates of the step to the candidate list l (eval's apply_preds), positions counted in
+     reverse document order when rv. *)
+  Definition step_body (S0 : list item) (ds : bool) (ax : axis) (nt : ntest)
+             (ap : bool -> list item -> res (list item)) : res value :=
     if is_ns_axis ax then (if f_nsaxis fl then Err E_TYPE else Ok (VSet []))
-    else if is_attr_axis ax then
-      (* no metadata in the modelled trees: the attribute axis is empty *)
-      (if f_attrnode fl && match nt with TNode => true | _ => false end && match S0 with [] => false | _ => true end
-       then Err E_ASSERT else Ok (VSet []))
+    else if is_attr_axis ax then Ok (VSet [])         (* no metadata in the modelled trees *)
     else
-      (* '//' = /descendant-or-self::node()/ ; as coded ignored before a node type test, and before a
-         name test on the child axis done by moveto_node_alldesc_child() which first moves to the children *)
-      let is_type := match nt with TNode | TText => true | _ => false end in
-      let ds_eff := ds && negb (f_dslash fl && is_type) in
-      let alldesc_child := ds_eff && is_child_axis ax in
-      bind (if ds_eff && (f_assert fl || f_crash fl) then
-              if alldesc_child then step_checks nca0 AxChild TNode S0
-              else step_checks nca0 AxDescendantOrSelf TNode S0
-            else Ok tt) (fun _ =>
-      let S := if ds_eff then step_union AxDescendantOrSelf TNode S0 else S0 in
-      let nca1 := nca0 || (ds_eff && negb alldesc_child) in
-      let nca2 := nca1 || nonchild_axis ax in
+      (* '//' = /descendant-or-self::node()/ *)
+      let S := if ds then step_union AxDescendantOrSelf TNode S0 else S0 in
       if f_text fl && match nt with TText => true | _ => false end then
         (* xpath_pi_text(): on the child axis the term nodes of the context set become their text nodes *)
-        let texts := if is_child_axis ax then flat_map text_of_item S else [] in
-        if f_texthash fl && has_preds && (4 <=? length texts)%nat then Err E_ASSERT
-        else bind (ap nca2 false 0%nat texts) (fun l => Ok (VSet l))
-      else
-      bind (if (f_assert fl || f_crash fl) && negb alldesc_child then step_checks nca1 ax nt S else Ok tt) (fun _ =>
-      if f_predglobal fl then
-        let is_name := match nt with TName _ _ | TStar _ => true | _ => false end in
-        let dup_mode := f_alldup fl && alldesc_child && is_name in
-        (* as coded a child or self step does not look for duplicates: from a context set that holds a node twice
-           (see dup_mode) the selected nodes come twice as well *)
-        let keep_dups := f_alldup fl && negb (nonchild_axis ax) && negb ds_eff &&
-                         negb (length (dedupe S []) =? length S)%nat in
-        let all := if dup_mode then alldesc_coded nt (step_union AxChild TNode S0)
-                   else if keep_dups then fold_left (fun acc c => merge_keep acc (cands fl t ax nt c)) S []
-                   else step_union ax nt S in
-        (* asserts of the debug build: a duplicate cannot be inserted into the hash table a set has from its
-           4th item on (set_insert_node_hash); the final set must not need sorting *)
-        if dup_mode && f_assert fl &&
-           (negb (match all with [] => true | it :: r => sorted_weak_from (item_key it) r end) ||
-            ((4 <=? length all)%nat && negb (length (dedupe all []) =? length all)%nat))
-        then Err E_ASSERT else
-        let generic := bind (ap nca2 (reverse_axis ax) 0%nat all) (fun l => Ok (VSet l)) in
-        match fastp all with
-        | Some (n0, keys) =>
-            match fastv n0 keys with
-            | Some vs =>
-                bind (ap nca2 false (length keys)
-                        (filter (fun m => match m with IElem n => inst_matches t n keys vs | _ => false end) all))
-                     (fun l => Ok (VSet l))
-            | None => generic
-            end
-        | None => generic
-        end
+        bind (ap false (if is_child_axis ax then flat_map text_of_item S else [])) (fun l => Ok (VSet l))
+      else if f_predglobal fl then
+        (* as coded: the predicates filter the merged result of the step *)
+        bind (ap (reverse_axis ax) (step_union ax nt S)) (fun l => Ok (VSet l))
       else
         (* XPath 1.0 section 2.1: for each context node the axis and node test give the candidates, the predicates
            filter them with positions along the axis; the step selects the union *)
         bind (fold_res (fun acc c =>
-                          bind (ap nca2 (reverse_axis ax) 0%nat (cands fl t ax nt c))
+                          bind (ap (reverse_axis ax) (cands fl t ax nt c))
                                (fun l => Ok (merge_items acc l))) S [])
-             (fun l => Ok (VSet l)))).
+             (fun l => Ok (VSet l)).
 
-  (* as coded: a step applied to something that is not a node-set *)
+  (* a step applied to something that is not a node-set: a type error; as coded node() gives an empty node-set *)
   Definition step_nonset (nt : ntest) : res value :=
-    if f_nonset fl then
-      match nt with
-      | TName _ _ | TStar (Some _) => Err E_ASSERT
-      | TNode => Ok (VSet [])
-      | _ => Err E_TYPE
-      end
-    else Err E_TYPE.
+    if f_nonset fl && match nt with TNode => true | _ => false end then Ok (VSet []) else Err E_TYPE.
 
   Fixpoint eval (cx : ectx) (e : expr) {struct e} : res value :=
     match e with
@@ -806,30 +516,21 @@ Section Eval.
     | EStep base ds ax nt ps =>
         bind (eval cx base) (fun bv =>
         match bv with
-        | VSet S0 =>
-            step_body (nca_of base (c_nca cx)) S0 ds ax nt (match ps with PNil => false | _ => true end)
-              (fun nca rv skip l => apply_preds cx nca rv skip ps l)
-              (fast_pre ax ds nt ps)
-              (fun n0 keys => fast_vals cx n0 keys ps)
+        | VSet S0 => step_body S0 ds ax nt (fun rv l => apply_preds cx rv ps l)
         | _ => step_nonset nt
         end)
     | EFilter e' ps =>
         bind (eval cx e') (fun v =>
         match v with
-        | VSet l => bind (apply_preds cx (nca_of e' (c_nca cx)) false 0 ps l) (fun l' => Ok (VSet l'))
+        | VSet l => bind (apply_preds cx false ps l) (fun l' => Ok (VSet l'))
         | _ => Err E_TYPE
         end)
     | EOr a b =>
-        bind (eval cx a) (fun va => if to_bool va then (if f_skip fl && skip_clobbers b then Ok (VSet []) else Ok (VBool true))
+        bind (eval cx a) (fun va => if to_bool va then Ok (VBool true)
                                     else bind (eval cx b) (fun vb => Ok (VBool (to_bool vb))))
     | EAnd a b =>
-        (* a chain 'x and y and z' is EAnd (EAnd x y) z and is evaluated operand by operand on one result set: when
-           (as coded) a skipped operand emptied that set, it is no longer the boolean false and the next operand is
-           evaluated *)
-        bind (eval cx a) (fun va =>
-          let emptied := f_skip fl && match a, va with EAnd _ _, VSet [] => true | _, _ => false end in
-          if to_bool va || emptied then bind (eval cx b) (fun vb => Ok (VBool (to_bool vb)))
-          else if f_skip fl && skip_clobbers b then Ok (VSet []) else Ok (VBool false))
+        bind (eval cx a) (fun va => if to_bool va then bind (eval cx b) (fun vb => Ok (VBool (to_bool vb)))
+                                    else Ok (VBool false))
     | ECmp op a b =>
         bind (eval cx a) (fun va => bind (eval cx b) (fun vb => Ok (VBool (cmp_values fl t op va vb))))
     | EArith op a b =>
@@ -838,12 +539,7 @@ Section Eval.
     | EUnion a b =>
         bind (eval cx a) (fun va => bind (eval cx b) (fun vb =>
           match va, vb with
-          | VSet l1, VSet l2 =>
-              (* as coded: an operand that holds a node twice (see f_alldup) cannot be merged into a set that has a
-                 hash table (4 items): assert in set_insert_node_hash() *)
-              if f_alldup fl && f_assert fl && (4 <=? length (merge_items l1 l2))%nat &&
-                 negb ((length (dedupe l1 []) =? length l1)%nat && (length (dedupe l2 []) =? length l2)%nat)
-              then Err E_ASSERT else Ok (VSet (merge_items l1 l2))
+          | VSet l1, VSet l2 => Ok (VSet (merge_items l1 l2))
           | _, _ => Err E_TYPE
           end))
     | ELit s => Ok (VStr s)
@@ -858,60 +554,31 @@ Section Eval.
         | FTrue => Ok (VBool true)
         | FFalse => Ok (VBool false)
         | FCurrent => Ok (VSet [c_cur cx])
-        | FString | FNumber | FStrLen | FNormSpace | FLocalName | FName => fun1 f cx (VSet [c_item cx])
+        | FString | FNumber | FStrLen | FNormSpace | FLocalName | FName => fun1 f (VSet [c_item cx])
         | _ => Err E_TYPE
         end
-    | EFun1 f a => bind (eval cx a) (fun va => fun1 f cx va)
+    | EFun1 f a => bind (eval cx a) (fun va => fun1 f va)
     | EFun2 f a b => bind (eval cx a) (fun va => bind (eval cx b) (fun vb => fun2 f va vb))
     | EFun3 f a b c =>
         bind (eval cx a) (fun va => bind (eval cx b) (fun vb => bind (eval cx c) (fun vc => fun3 f va vb vc)))
     end
   (* Predicate*: each predicate filters the list; positions count in document order, or in reverse document order
-     on a reverse axis. The first [skip] predicates are passed over (as coded: answered by the key lookup). *)
-  with apply_preds (cx : ectx) (nca : bool) (rv : bool) (skip : nat) (ps : preds) (l : list item)
-                   {struct ps} : res (list item) :=
+     on a reverse axis (XPath 1.0 section 2.4); the context of the predicate expression is the node with its
+     position and the size of the list, also inside function arguments and operands *)
+  with apply_preds (cx : ectx) (rv : bool) (ps : preds) (l : list item) {struct ps} : res (list item) :=
     match ps with
     | PNil => Ok l
     | PCons p r =>
-        match skip with
-        | S sk => apply_preds cx nca rv sk r l
-        | O =>
-            let n := N.of_nat (length l) in
-            bind (filter_idx (fun it i =>
-                    let pos := if rv then n + 1 - i else i in
-                    bind (eval {| c_item := it; c_pos := pos; c_size := n; c_cur := c_cur cx; c_nca := nca |} p)
-                         (fun v => Ok (pred_true fl v pos))) l 1)
-                 (fun l' => apply_preds cx nca rv O r l')
-        end
-    end
-  (* as coded: eval_name_test_try_compile_predicates() + moveto_node_hash_child(): on a child step to a keyed list
-     whose first predicates are [key=value] for all keys in schema order with context-independent values, each value
-     is evaluated ONCE (context: the first instance), converted to a STRING, brought to the canonical form of the key
-     type (no lookup when the type rejects it) and the instances are found by comparing key strings *)
-  with fast_vals (cx : ectx) (n0 : xnode) (keys : list bytes) (ps : preds) {struct ps} : option (list bytes) :=
-    match keys with
-    | [] => Some []
-    | k :: keys' =>
-        match ps with
-        | PCons (ECmp CEq _ rhs) r =>
-            match eval {| c_item := IElem n0; c_pos := 1; c_size := 1; c_cur := c_cur cx; c_nca := false |} rhs with
-            | Ok v =>
-                match key_child t n0 k with
-                | Some d =>
-                    match canonize (ni_type (x_info d)) (str_of v) with
-                    | Some c => match fast_vals cx n0 keys' r with Some vs => Some (c :: vs) | None => None end
-                    | None => None
-                    end
-                | None => None
-                end
-            | Err _ => None
-            end
-        | _ => None
-        end
+        let n := N.of_nat (length l) in
+        bind (filter_idx (fun it i =>
+                let pos := if rv then n + 1 - i else i in
+                bind (eval {| c_item := it; c_pos := pos; c_size := n; c_cur := c_cur cx |} p)
+                     (fun v => Ok (pred_true v pos))) l 1)
+             (fun l' => apply_preds cx rv r l')
     end.
 
   (* the context of a top-level evaluation with context item c *)
-  Definition top_ctx (c : item) : ectx := {| c_item := c; c_pos := 1; c_size := 1; c_cur := c; c_nca := false |}.
+  Definition top_ctx (c : item) : ectx := {| c_item := c; c_pos := 1; c_size := 1; c_cur := c |}.
   Definition eval_top (c : item) (e : expr) : res value :=
     if f_nsaxis fl && uses_ns e then Err E_TYPE else eval (top_ctx c) e.
 End Eval.
